@@ -277,6 +277,42 @@ fn enums_family(thorough: bool) -> ActionFamily {
     }
 }
 
+/// if- and case-expressions used as values whose branches start with statements of every block kind (a `do` block,
+/// a loop, a nested if statement, a definition) - in a definition, an argument, an operand and a loop condition
+fn value_blocks_family(thorough: bool) -> ActionFamily {
+    let lead: Vec<(&str, fn() -> Vec<Stmt>)> = vec![
+        ("do-block", || vec![Stmt::Block(vec![op_assign("n", BinOp::Add, int(1)), print_of(var("n"))])]),
+        ("loop", || vec![Stmt::Loop(None, vec![op_assign("n", BinOp::Add, int(10)), Stmt::Break])]),
+        ("if-statement", || vec![if_s(bin(BinOp::Gt, var("n"), int(0)), vec![op_assign("n", BinOp::Add, int(100))])]),
+        ("definition", || vec![def("tmp", mul(var("n"), int(2))), op_assign("n", BinOp::Add, var("tmp"))]),
+        ("nested-do-blocks", || vec![Stmt::Block(vec![Stmt::Block(vec![op_assign("n", BinOp::Add, int(3))])]), Stmt::Block(vec![print_of(var("n"))])]),
+    ];
+    let mut actions: Vec<Vec<Stmt>> = Vec::new();
+    for (_, l) in &lead {
+        let branch = |l: &fn() -> Vec<Stmt>, v: i64| {
+            let mut b = l();
+            b.push(Stmt::Expr(add(var("n"), int(v))));
+            b
+        };
+        // definition value (then-branch), definition value (else-branch taken), argument, operand, case value, loop condition
+        actions.push(vec![def("x", if_e(bin(BinOp::Ge, var("n"), int(0)), branch(l, 1), Some(vec![Stmt::Expr(int(0))]))), print_of(var("x"))]);
+        actions.push(vec![def("x", if_e(bin(BinOp::Lt, var("n"), int(0)), vec![Stmt::Expr(int(0))], Some(branch(l, 2)))), print_of(var("x"))]);
+        actions.push(vec![print_of(if_e(bin(BinOp::Ge, var("n"), int(0)), branch(l, 3), Some(vec![Stmt::Expr(int(0))])))]);
+        actions.push(vec![print_of(add(int(1000), if_e(bin(BinOp::Ge, var("n"), int(0)), branch(l, 4), Some(vec![Stmt::Expr(int(0))]))))]);
+        actions.push(vec![def("y", Expr::Case(Box::new(variant_a(var("n"))), vec![CaseArm { variant: "A".into(), bind: Some("q".into()), body: { let mut b = l(); b.push(Stmt::Expr(add(var("q"), var("n")))); b } }], Some(vec![Stmt::Expr(int(0))]))), print_of(var("y"))]);
+        actions.push(vec![def("i", int(0)), Stmt::Loop(Some(if_e(bin(BinOp::Lt, var("i"), int(2)), { let mut b = l(); b.push(Stmt::Expr(Expr::Bool(true))); b }, Some(vec![Stmt::Expr(Expr::Bool(false))]))), vec![op_assign("i", BinOp::Add, int(1))]), print_of(var("i"))]);
+    }
+    ActionFamily {
+        name: "value-blocks",
+        tops: vec![ext_print(), blob_p(), enum_e()],
+        prologue: vec![def("n", int(1))],
+        actions,
+        epilogue: vec![print_of(var("n"))],
+        max_len: if thorough { 2 } else { 1 },
+        wrap: None,
+    }
+}
+
 fn globals_family(thorough: bool) -> ActionFamily {
     ActionFamily {
         name: "globals",
@@ -527,6 +563,12 @@ pub fn all_programs_len(max_len: usize) -> Vec<(String, Program)> {
     fams.push(globals_family(false));
     for mut f in fams {
         f.max_len = max_len;
+        f.programs(&mut out);
+    }
+    {
+        // 30 actions: sequences of at most two
+        let mut f = value_blocks_family(false);
+        f.max_len = max_len.min(2);
         f.programs(&mut out);
     }
     recursion_programs(&mut out);
